@@ -5,7 +5,7 @@ from harness import core, aclhist, c06
 
 PROP = "C16"
 TRACE_MODULES = ["Trace_Acl", "Trace_C06"]
-WEIGHTS = dict(Copy=6, DataRoundTrip=4, SetPlatform=3, SetPortNr=2, SetProtocolNr=2, Resequence=2, Sort=2, Group=2, Ungroup=1, UngroupPorts=1)
+WEIGHTS = dict(SetType=1, Copy=6, DataRoundTrip=4, SetPlatform=3, SetPortNr=2, SetProtocolNr=2, Resequence=2, Sort=2, Group=2, Ungroup=1, UngroupPorts=1)
 
 
 def run(tier, seed):
